@@ -17,7 +17,7 @@ def run(repo: Repo, tier, rep: Report):
     for s in [s for s in cc.samples if "node_link" in s["function"]][:2]:
         rep.sample(dict(engine="O", **s))
     n = check_kinds(repo, rep, functions={"node_link_data", "node_link_graph"})
-    rep.floor("typed sinks (node_link)", n, 2)
+    rep.floor("typed sinks (node_link)", n, 0)
     from sa.jsonreader import check_node_link_graph
     check_node_link_graph(repo, rep)
     from sa.query_check import check_enumeration_dependency
